@@ -36,7 +36,11 @@ class ChainFinder(object):
                 h = self.parent_lookup.get(h)
                 if h is None:
                     break
-                new_hashes.discard(h)
+                if h in new_hashes:
+                    # h is itself new and not yet melded: stop here; when h is popped, every path
+                    # waiting on it (this one and earlier orphans) is extended
+                    path.append(h)
+                    break
                 preceding_path = self.trees_from_bottom.get(h)
                 if preceding_path:
                     del self.trees_from_bottom[h]
